@@ -70,6 +70,7 @@ class Externals:
                 self.mem.check(st, 'R', args[0], args[2].a, ins, 'memcmp first operand')
                 self.mem.check(st, 'R', args[1], args[2].a, ins, 'memcmp second operand')
             r = st.fresh_int('ext:memcmp', 32)
+            st.event(('memcmp', args[0], args[1], args[2], r))
             return [(st, r)]
         if name == 'strlen':
             return self.strlen(st, args[0], ins)
